@@ -338,4 +338,25 @@ theorem dependencies_add (cs : List Ch) (c : Ch) (hc : c ∈ cs) (hk : c.kind = 
     simp only [this, if_true]
     exact has_add_self _ _ _
 
+/-- **dependencies_drop**: a dropped table that is referenced by a foreign key of another dropped table
+depends on (is dropped after) the table holding the key. -/
+theorem dependencies_drop (cs : List Ch) (c : Ch) (hc : c ∈ cs) (hk : c.kind = .drop) (fk : FK)
+    (hfk : fk ∈ c.fks) (hdr : isDropped cs fk.ref = true) : Has (dependencies cs) fk.ref c.table := by
+  obtain ⟨pre, post, hsplit⟩ := List.append_of_mem hc
+  rw [dependencies_eq]
+  conv => arg 1; arg 3; rw [hsplit]
+  rw [List.foldl_append, List.foldl_cons]
+  apply foldl_mono _ _ _ (fun d b h => depStep_mono _ _ _ d b h)
+  unfold depStep
+  rw [hk]
+  simp only
+  obtain ⟨f1, f2, hf⟩ := List.append_of_mem hfk
+  rw [hf, List.foldl_append, List.foldl_cons]
+  apply foldl_mono
+  · intro d b h; split
+    · exact has_add_mono _ _ _ _ _ h
+    · exact h
+  · simp only [hdr, if_true]
+    exact has_add_self _ _ _
+
 end Atlas.Sort
